@@ -122,6 +122,13 @@ def cases(draw, tier):
                 extra = draw(st.lists(st.sampled_from(keys), min_size=1, max_size=2))
                 m = [(k, ct if k in extra else v) for k, v in m]
         case["mapping"] = [[k, v] for k, v in m]
+    if cls == "empty" and draw(st.integers(0, 2)) == 0:
+        # nothing to infer a common value from except the mapping: documented rule = the lowest mapped value
+        case["common"] = None
+        case["counts"], case["counts_extra"] = False, []
+        mk = "for an empty array"
+        ks = draw(st.lists(st.integers(-2, 6), min_size=1, max_size=3, unique=True))
+        case["mapping"] = [[k, draw(st.sampled_from([0, 1, 5, -3, 256, 70000]))] for k in ks]
     case["mapkind"] = mk if case["mapping"] is not None else "none"
     # the FORM of the input array: element type (any integer dtype that holds the values) and memory layout
     case["in_dtype"] = draw(st.sampled_from(["int64", "int64", "narrow", "narrow_signed", "uint64", "int32"]))
@@ -207,6 +214,9 @@ def check(case, rec):
         raise Violation("from_array: index shape %r, array shape %r" % (ix.shape, a.shape), sig="from_array shape")
     wellformed(ix, "from_array(%s, common=%r, counts=%s, mapping=%s)" % (
         case["cls"], case["common"], case["counts"], case["mapkind"]), "from_array")
+    if a.size == 0 and case["common"] is None and m1 and ix.common != min(m1.values()):
+        raise Violation("from_array(empty array, mapping=%r) chose common %r, documented: the lowest mapped value" % (
+            m1, ix.common), sig="from_array empty + mapping common")
     if case["common"] is not None:
         want_common = case["common"] if m1 is None else m1[case["common"]]
         if ix.common != want_common:
